@@ -358,7 +358,10 @@ class Seq(C.Stream):
 
     def gen(self, rng, i):
         for _ in range(20):
-            c = gen_case(rng)
+            # no NaN here: the sequences pass THE SAME live container as expected and as actual value, and Python's containers
+            # compare identical items without asking `==` — the object model (Model/MatcherObj.lean) has values, not identities;
+            # NaN objects (same / different) are the business of C17.inject's identity domain and of C16 / C17.describe
+            c = G.without_nans(gen_case(rng))
             if valid(c):
                 return c
         return {"store": [], "ops": [{"op": "build", "expr": ["is_none"]}, {"op": "describe", "obj": 0, "tr": [False, False]}]}
